@@ -53,8 +53,13 @@ RULES = {
     "presence with `is (not) None`; a truthiness test (`if v:`, `v and …`, a comprehension filter) is accepted only where "
     "skipping 0 changes nothing - `v or 0`, or a guard around nothing but the direct store of v into a scalar proto field "
     "(unset and 0 are the same there) - otherwise an offset or length of 0 is dropped from the written entries",
+    "R14": "an empty object is not an absent one (shared rule S12): in the (de)serializer, the presence of a payload whose declared "
+    "type is - or, for the `Any`-typed value of an attribute, may be - an instance of a sized class with further state (Graph, "
+    "Function, GraphView, Shape: `len()` counts nodes / dimensions) is tested with `is None`, never by truthiness: a subgraph "
+    "without nodes (a branch that only returns a captured value or an initializer) and a rank-0 shape are falsy, so a writer "
+    "that skips `not value` drops the whole subgraph - its name, inputs, outputs, initializers",
 }
-FLOORS = {"R1": 100, "R2": 40, "R3": 30, "R4": 1, "R5": 40, "R6": 20, "R7": 6, "R8": 3, "R9": 3, "R10": 10, "R11": 1, "R12": 12, "R13": 2}
+FLOORS = {"R1": 100, "R2": 40, "R3": 30, "R4": 1, "R5": 40, "R6": 20, "R7": 6, "R8": 3, "R9": 3, "R10": 10, "R11": 1, "R12": 12, "R13": 2, "R14": 10}
 EXPLANATION = (
     "Types every proto expression of serde.py through parameter annotations and the parsed onnx-ml.proto schema, "
     "collects per message the fields the deserializer reads and the serializer writes (attribute access, HasField, "
@@ -881,7 +886,31 @@ def rule_r13(ctx):
     ctx.require(n >= 2, f"only {n} truthiness tests of optional numbers found on the serialization path")
 
 
+def rule_r14(ctx):
+    from ..shared import sized_payload_truth_tests
+
+    n = 0
+    for f in ctx.repo.module(SERDE).all_funcs:
+        if isinstance(f.node, ast.Lambda):
+            continue
+        f._s12_examined = 0
+        hits = sized_payload_truth_tests(ctx.repo, ctx.typer, f)
+        n += f._s12_examined
+        for node, t, src, cls in hits:
+            ctx.check("R14", f"{f.local}: presence of {norm(t)} ({src}) is tested with `is None`", False, f, node,
+                      f"`{norm(t)}` is tested by truthiness but it is declared `{src}`: {cls} - an instance without elements (a Graph without nodes, a "
+                      "rank-0 Shape) is falsy although it is a value with a name, inputs, outputs and initializers of its own; what the test guards "
+                      "is skipped for it, so the subgraph (or shape) is missing from the written proto",
+                      how="declared type of the tested expression (S10 source tracing) vs package classes defining __len__/__bool__ with further state",
+                      construct=f"truthiness of {src}")
+    for _ in range(n):
+        ctx.counts["R14"] = ctx.counts.get("R14", 0) + 1
+    ctx.ob("R14", f"{n} truthiness tests with a declared type examined in serde", True, nontrivial=False, how="S12")
+    ctx.require(n >= 10, f"only {n} typed truthiness tests found in serde")
+
+
 def run(ctx):
+    rule_r14(ctx)
     rule_r13(ctx)
     rule_r12(ctx)
     rule_type_reader_siblings(ctx)
